@@ -11,14 +11,19 @@ os.makedirs(out, exist_ok=True)
 def sh(cmd, cwd=None, timeout=3600):
     p = subprocess.run(cmd, shell=True, cwd=cwd, stdout=subprocess.PIPE, stderr=subprocess.STDOUT, timeout=timeout)
     return p.returncode, p.stdout.decode('utf-8', 'replace')
-rc, diff = sh('git diff -- src components', cwd=wt)
-open(os.path.join(out, 'patch.diff'), 'w').write(diff)
-demo = os.path.join(wt, 'tests', 'seeded_demo.rs')
-if os.path.exists(demo):
-    shutil.copy(demo, os.path.join(out, 'seeded_demo.rs'))
+if wt != '-':      # '-' = the worktree is gone: re-run against the stored patch
+    rc, diff = sh('git diff -- src components', cwd=wt)
+    open(os.path.join(out, 'patch.diff'), 'w').write(diff)
+    demo = os.path.join(wt, 'tests', 'seeded_demo.rs')
+    if os.path.exists(demo):
+        shutil.copy(demo, os.path.join(out, 'seeded_demo.rs'))
 env = 'CARGO_TARGET_DIR=%s/target CARGO_NET_OFFLINE=true' % wt
 meta = {'seed_id': sid, 'property': prop, 'ran': []}
-if '--skip-demo' not in sys.argv:
+if os.path.exists(os.path.join(out, 'meta.json')):
+    old = json.load(open(os.path.join(out, 'meta.json')))
+    meta = dict(old, seed_id=sid, property=prop)
+    meta.setdefault('earlier_runs', []).append({'checks': old.get('checks_run_with_patch_applied'), 'caught_by': old.get('caught_by')})
+if '--skip-demo' not in sys.argv and wt != '-':
     rc1, o1 = sh('%s cargo test --offline --test seeded_demo 2>&1 | tail -5' % env, cwd=wt)
     sh('git stash -- src components', cwd=wt)
     rc2, o2 = sh('%s cargo test --offline --test seeded_demo 2>&1 | tail -5' % env, cwd=wt)
@@ -32,6 +37,13 @@ rc, o = sh('git -C /repo apply %s/patch.diff' % out)
 if rc != 0:
     print('PATCH DOES NOT APPLY to /repo:', o); sys.exit(2)
 results = {}
+# evidence written by checks that run against the mutated tree must not replace the evidence of
+# the unchanged tree: keep copies and put them back afterwards
+saved = {}
+for c in checks:
+    ev = '/verif/evidence/%s.json' % c
+    if not c.startswith('--') and os.path.exists(ev):
+        saved[ev] = open(ev).read()
 try:
     for c in checks:
         if c.startswith('--'):
@@ -43,6 +55,8 @@ try:
         print(c, 'exit', rc, lines[:3])
 finally:
     sh('git -C /repo checkout -- .')
+    for ev, text in saved.items():
+        open(ev, 'w').write(text)
 meta['checks_run_with_patch_applied'] = results
 meta['caught_by'] = [c for c, r in results.items() if r['exit'] != 0]
 json.dump(meta, open(os.path.join(out, 'meta.json'), 'w'), indent=1)
